@@ -125,8 +125,13 @@ def generate(inv, T):
 
 
 def has_sum_of_independent(t):
+    """a sum or difference that can cancel: any subtraction or negation, or an addition with a negative constant.  (Additions
+    of positive quantities only - a Newton iteration, say - are well conditioned over the positive reals and keep the plain
+    K-ulp obligation.)"""
     for x in tm.walk(t):
-        if x.op in ('fadd', 'fsub'):
+        if x.op in ('fsub', 'fneg'):
+            return True
+        if x.op == 'fadd' and any(a.op == 'fc' and (isinstance(a.args[0], str) or a.args[0] < 0) for a in x.args):
             return True
     return False
 
